@@ -447,6 +447,8 @@ def render_file(lines, world="a", secrets=None):
         bodies.append(bytes(b))
     for i, ln in enumerate(lines):
         eol = ln.get("eol", "\n")
+        if eol == "" and i + 1 < len(lines):
+            eol = "\n"          # only the final line of a file may lack its terminator (later insertions must not merge lines)
         if eol == "\r" and i + 1 < len(lines) and bodies[i + 1] == b"":
             eol = "\r\n"
         out += bodies[i] + eol.encode("utf-8")
